@@ -327,6 +327,83 @@ def vlog_torn_header(lengths=(1, 3, 4, 6, 9, 10, 15, 30)):
     return False, "\n".join(["(header lengths tried: %s)" % (list(lengths),)] + text)
 
 
+def torn_header_tail():
+    """power loss inside the HEADER of a commit-log record in the middle of a block (3 of its 7 bytes reach the disk),
+    reopen, acknowledged commits into the same segment, a memtable/WAL rotation, one more commit, process crash, reopen:
+    every acknowledged commit must be there (the stale header bytes must have been cut before the segment was appended to)"""
+    ch = Chain("tornheader")
+    text = []
+    s1 = txn(1, [("6101", "a101")], sync=True) + txn(2, [("6102", "a102")], sync=True) + txn(3, [("6103", "a103")], sync=True) + txn(4, [("6104", "a104")])
+    out, log = ch.session(s1, opts="lc=2")
+    k = ch.cut(wal_record_written(4))
+    if k is None:
+        return False, "cut 1 not found"
+    torn = 0
+    for p_, f in ch.files.items():
+        if p_.endswith(".wal") and f.pending and f.pending[-1][0] == "w":
+            op = f.pending[-1]
+            f.pending[-1] = ("w", op[1], op[2][:4])     # allbutone keeps 3 bytes
+            torn += 1
+    text.append("session 1: txn1..3 acknowledged with immediate durability; POWER loss during the write of txn4's record: 3 bytes of its header are on disk (log line %d; %d segment torn)" % (k, torn))
+    s2 = []
+    for j in range(1, 7):
+        s2 += txn(j, [("62%02d" % j, "b2%02d" % j)], sync=True)
+    s2 += ["rotate"] + txn(9, [("6301", "c301")], sync=True)
+    out, log = ch.session(s2, "allbutone", opts="lc=2")
+    oks = out[2:]
+    text.append("session 2: open = %s; six commits, a rotation (no flush), one more commit: %s; PROCESS crash" % (out[1] if len(out) > 1 else out, " ".join(oks)))
+    root, log2, sim = ch.cur
+    ch.cut(lambda i, l, sim_: i == len(log2) - 1)
+    out3, _ = ch.session(["begin 9 ro", "scan 9 - ~ f"], "proc", opts="lc=2")
+    res = (out3[1] if len(out3) > 1 else "no-answer"), (out3[3] if len(out3) > 3 else str(out3))
+    text.append("session 3: open = %s, scan = %s" % (res[0], res[1][:300]))
+    want = ["6101=", "6102=", "6103="] + ["62%02d=" % j for j in range(1, 7)] + ["6301="]
+    missing = [w for w in want if w not in res[1]]
+    all_acked = len(out) > 1 and out[1] == "ok" and all(x in ("ok",) or x.startswith("ok") for x in oks if not x.startswith("val"))
+    hit = all_acked and (res[0] != "ok" or bool(missing))
+    text.append(("   acknowledged commits are missing after the second crash: %s" % missing) if hit else "   (not reproduced)")
+    text += ["# scripts:"] + ["#  session %d (image policy %s): %s" % (i + 1, pol, " ; ".join(s_[1:])) for i, (pol, s_) in enumerate(ch.scripts)]
+    ch.cleanup()
+    return hit, "\n".join(text)
+
+
+def admission_boundary(mem=8192):
+    """single-value transactions whose size sweeps the band just below the memtable size: each is either refused BEFORE it
+    is logged or committed; whatever the answers, after a process crash the store must open and show every acknowledged
+    commit (a record that is logged but can never be applied would make every later recovery fail)"""
+    ch = Chain("admission")
+    text = []
+    opts = "lc=2,mem=%d" % mem
+    cmds, sizes = [], list(range(mem - 680, mem - 300, 20))
+    for i, sz in enumerate(sizes):
+        cmds += txn(10 + i, [("64%02d" % i, "rep:%d:%d" % (sz, i))])
+        cmds += txn(50 + i, [("65%02d" % i, "e5%02d" % i)])
+    out, log = ch.session(cmds, opts=opts)
+    ans = out[2:]
+    acked = []
+    for i in range(len(sizes)):
+        a = ans[i * 6:(i + 1) * 6]
+        if len(a) == 6:
+            if a[2] == "ok":
+                acked.append("64%02d=" % i)
+            if a[5] == "ok":
+                acked.append("65%02d=" % i)
+    big = [ans[i * 6 + 2] if len(ans) > i * 6 + 2 else "-" for i in range(len(sizes))]
+    text.append("session 1 (options %s): %d transactions with one value of %d..%d bytes, each followed by a small one; answers of the big commits: %s; PROCESS crash" % (
+        opts, len(sizes), sizes[0], sizes[-1], " ".join(x[:24] for x in big)))
+    root, log1, sim = ch.cur
+    ch.cut(lambda i, l, sim_: i == len(log1) - 1)
+    out2, _ = ch.session(["begin 9 ro", "scan 9 - ~ f"], "proc", opts=opts)
+    res = (out2[1] if len(out2) > 1 else "no-answer"), (out2[3] if len(out2) > 3 else str(out2))
+    text.append("session 2: open = %s, scan shows %d keys" % (res[0][:160], res[1].count("=")))
+    missing = [w for w in acked if w not in res[1]]
+    hit = bool(acked) and (res[0] != "ok" or bool(missing))
+    text.append(("   %d commits were acknowledged; the store does not reopen with them (missing: %s)" % (len(acked), missing[:6])) if hit else "   (not reproduced)")
+    text += ["# scripts:"] + ["#  session %d (image policy %s): %s" % (i + 1, pol, " ; ".join(s_[1:])[:3000]) for i, (pol, s_) in enumerate(ch.scripts)]
+    ch.cleanup()
+    return hit, "\n".join(text)
+
+
 SCENARIOS = {
     # class name -> (property or properties, scenario); the two recovery-in-pieces scenarios are crashes INSIDE recovery:
     # they lose an acknowledged commit (C02), leave a state that is no prefix (C03) and make two opens differ (C07)
@@ -337,6 +414,8 @@ SCENARIOS = {
     "flush_before_relog_part_of_txn": ("C03", relog_race),
     "empty_vlog_file_gets_no_header": ("C07", vlog_header),
     "torn_vlog_file_blocks_reopen": ("C07", vlog_torn_header),
+    "torn_header_tail_not_cut": (("C02", "C03"), torn_header_tail),
+    "oversized_batch_logged_blocks_reopen": (("C02", "C07"), admission_boundary),
 }
 
 
